@@ -497,6 +497,7 @@ pub mod bed {
             let mut b = lib::Record::new();
             b.set_name("overwritten");
             b.set_end(7);
+            b.set_score("junk");
             b.set_score(&r.aux[1]);
             b.set_name(&r.aux[0]);
             for a in &r.aux[2..] {
